@@ -42,42 +42,41 @@ Local Arguments Z.opp !x.
 Local Arguments firstn : simpl never.
 Local Arguments skipn : simpl never.
 Local Arguments slice : simpl never.
-Local Arguments app : simpl never.
 
 Lemma p2 : 10 ^ Z.of_nat 2 = 100. Proof. reflexivity. Qed.
 Lemma p4 : 10 ^ Z.of_nat 4 = 10000. Proof. reflexivity. Qed.
 
 (* merged forms of the concatenated tokens *)
 Lemma cat22 a b : 0 <= b < 100 ->
-  digits_n 2 a ++ digits_n 2 b ++ [] = digits_n 4 (a * 100 + b).
-Proof. intros Hb. rewrite app_nil_r. rewrite (digits_n_app 2 2 a b) by (rewrite p2; lia). rewrite p2. reflexivity. Qed.
+  digits_n 2 a ++ digits_n 2 b = digits_n 4 (a * 100 + b).
+Proof. intros Hb. rewrite (digits_n_app 2 2 a b) by (rewrite p2; lia). rewrite p2. reflexivity. Qed.
 Lemma cat222 a b c : 0 <= b < 100 -> 0 <= c < 100 ->
-  digits_n 2 a ++ digits_n 2 b ++ digits_n 2 c ++ [] = digits_n 6 ((a * 100 + b) * 100 + c).
+  digits_n 2 a ++ digits_n 2 b ++ digits_n 2 c = digits_n 6 ((a * 100 + b) * 100 + c).
 Proof.
-  intros Hb Hc. rewrite app_nil_r, app_assoc. rewrite (digits_n_app 2 2 a b) by (rewrite p2; lia).
+  intros Hb Hc. rewrite app_assoc. rewrite (digits_n_app 2 2 a b) by (rewrite p2; lia).
   rewrite (digits_n_app 4 2) by (rewrite p2; lia). rewrite !p2. reflexivity.
 Qed.
 Lemma cat422 y m d : 0 <= m < 100 -> 0 <= d < 100 ->
-  digits_n 4 y ++ digits_n 2 m ++ digits_n 2 d ++ [] = digits_n 8 ((y * 100 + m) * 100 + d).
+  digits_n 4 y ++ digits_n 2 m ++ digits_n 2 d = digits_n 8 ((y * 100 + m) * 100 + d).
 Proof.
-  intros Hm Hd. rewrite app_nil_r, app_assoc. rewrite (digits_n_app 4 2 y m) by (rewrite p2; lia).
+  intros Hm Hd. rewrite app_assoc. rewrite (digits_n_app 4 2 y m) by (rewrite p2; lia).
   rewrite (digits_n_app 6 2) by (rewrite p2; lia). rewrite !p2. reflexivity.
 Qed.
 Lemma cat42222 y m d h mi : 0 <= m < 100 -> 0 <= d < 100 -> 0 <= h < 100 -> 0 <= mi < 100 ->
-  digits_n 4 y ++ digits_n 2 m ++ digits_n 2 d ++ digits_n 2 h ++ digits_n 2 mi ++ []
+  digits_n 4 y ++ digits_n 2 m ++ digits_n 2 d ++ digits_n 2 h ++ digits_n 2 mi
   = digits_n 12 ((((y * 100 + m) * 100 + d) * 100 + h) * 100 + mi).
 Proof.
-  intros Hm Hd Hh Hmi. rewrite app_nil_r.
+  intros Hm Hd Hh Hmi.
   rewrite (app_assoc (digits_n 4 y)), (digits_n_app 4 2 y m) by (rewrite p2; lia).
   rewrite app_assoc, (digits_n_app 6 2) by (rewrite p2; lia).
   rewrite app_assoc, (digits_n_app 8 2) by (rewrite p2; lia).
   rewrite (digits_n_app 10 2) by (rewrite p2; lia). rewrite !p2. reflexivity.
 Qed.
 Lemma cat422222 y m d h mi s : 0 <= m < 100 -> 0 <= d < 100 -> 0 <= h < 100 -> 0 <= mi < 100 -> 0 <= s < 100 ->
-  digits_n 4 y ++ digits_n 2 m ++ digits_n 2 d ++ digits_n 2 h ++ digits_n 2 mi ++ digits_n 2 s ++ []
+  digits_n 4 y ++ digits_n 2 m ++ digits_n 2 d ++ digits_n 2 h ++ digits_n 2 mi ++ digits_n 2 s
   = digits_n 14 (((((y * 100 + m) * 100 + d) * 100 + h) * 100 + mi) * 100 + s).
 Proof.
-  intros Hm Hd Hh Hmi Hs. rewrite app_nil_r.
+  intros Hm Hd Hh Hmi Hs.
   rewrite (app_assoc (digits_n 4 y)), (digits_n_app 4 2 y m) by (rewrite p2; lia).
   rewrite app_assoc, (digits_n_app 6 2) by (rewrite p2; lia).
   rewrite app_assoc, (digits_n_app 8 2) by (rewrite p2; lia).
@@ -100,19 +99,28 @@ Ltac cat_facts E k Hv :=
   pose proof (cat_is_float _ k _ E Hv) as F1; pose proof (cat_to_decimal _ k _ E Hv) as F2;
   pose proof (cat_slen _ k _ E) as F3; pose proof (cat_has_dot _ k _ E) as F4; pose proof (cat_find_dot _ k _ E) as F5.
 
+Lemma sl_6_8n y m d : slice 6 8 (digits_n 4 y ++ digits_n 2 m ++ digits_n 2 d) = digits_n 2 d.
+Proof. rewrite <- (app_nil_r (digits_n 2 d)) at 1. apply sl_6_8. Qed.
+Lemma sl_10_12n y m d h mi :
+  slice 10 12 (digits_n 4 y ++ digits_n 2 m ++ digits_n 2 d ++ digits_n 2 h ++ digits_n 2 mi) = digits_n 2 mi.
+Proof. rewrite <- (app_nil_r (digits_n 2 mi)) at 1. apply sl_10_12. Qed.
+Lemma sl_2_4n h mi : slice 2 4 (digits_n 2 h ++ digits_n 2 mi) = digits_n 2 mi.
+Proof. rewrite <- (app_nil_r (digits_n 2 mi)) at 1. apply sl_2_4. Qed.
+
 Ltac slrw :=
-  rewrite ?sl_0_4, ?sl_4_6, ?sl_6_8, ?sl_8_10, ?sl_10_12, ?sk_12, ?sl_0_2, ?sk_2, ?sl_2_4, ?sk_4, ?app_nil_r.
+  rewrite ?sl_0_4, ?sl_4_6, ?sl_6_8, ?sl_6_8n, ?sl_8_10, ?sl_10_12, ?sl_10_12n, ?sk_12, ?sl_0_2, ?sk_2,
+          ?sl_2_4, ?sl_2_4n, ?sk_4.
 
 Ltac csym := repeat (progress (catrw; slrw; sym2)).
 
-Definition T8 (d : dt7) : str := digits_n 4 (d_y d) ++ digits_n 2 (d_mo d) ++ digits_n 2 (d_d d) ++ [].
+Definition T8 (d : dt7) : str := digits_n 4 (d_y d) ++ digits_n 2 (d_mo d) ++ digits_n 2 (d_d d).
 Definition T12 (d : dt7) : str :=
-  digits_n 4 (d_y d) ++ digits_n 2 (d_mo d) ++ digits_n 2 (d_d d) ++ digits_n 2 (d_h d) ++ digits_n 2 (d_mi d) ++ [].
+  digits_n 4 (d_y d) ++ digits_n 2 (d_mo d) ++ digits_n 2 (d_d d) ++ digits_n 2 (d_h d) ++ digits_n 2 (d_mi d).
 Definition T14 (d : dt7) : str :=
   digits_n 4 (d_y d) ++ digits_n 2 (d_mo d) ++ digits_n 2 (d_d d) ++ digits_n 2 (d_h d) ++ digits_n 2 (d_mi d)
-  ++ digits_n 2 (d_s d) ++ [].
-Definition T4 (d : dt7) : str := digits_n 2 (d_h d) ++ digits_n 2 (d_mi d) ++ [].
-Definition T6 (d : dt7) : str := digits_n 2 (d_h d) ++ digits_n 2 (d_mi d) ++ digits_n 2 (d_s d) ++ [].
+  ++ digits_n 2 (d_s d).
+Definition T4 (d : dt7) : str := digits_n 2 (d_h d) ++ digits_n 2 (d_mi d).
+Definition T6 (d : dt7) : str := digits_n 2 (d_h d) ++ digits_n 2 (d_mi d) ++ digits_n 2 (d_s d).
 
 Definition compact_segs (j : joiner) (tf : tform) (d : dt7) : list seg :=
   match j, tf with
@@ -175,8 +183,7 @@ Proof.
           cbn [map concat seg_str]; repeat rewrite <- app_assoc; rewrite ?app_nil_r;
           repeat (rewrite ?app_nil_r; rewrite ?app_nil_l); reflexivity);
     assert (Hwf : wf_segs (compact_segs j tf d) = true)
-      by (unfold compact_segs, join_segs, time_segs; cbn [wf_segs hd_error ok_next];
-          change ([SDig (T8 d)] ++ ?x) with (SDig (T8 d) :: x); cbn [wf_segs hd_error ok_next];
+      by (unfold compact_segs, join_segs, time_segs; cbv [app]; cbn [wf_segs hd_error ok_next];
           rewrite ?W8, ?W12, ?W14, ?W4, ?W6, ?L8, ?L4, ?L6; cbn [wf_seg];
           rewrite ?digits_n_all_digit, ?digits_n_length, ?nonempty_digits; vm_compute; reflexivity)
   end;
